@@ -35,6 +35,51 @@ struct Spendable {
     op: OutPoint,
     capacity: u64,
     mature: bool,
+    /// locked by the real secp256k1_blake160_sighash_all script (key 0): spending it needs a valid signature
+    secp: bool,
+}
+
+/// Sign `tx` for its secp-locked inputs (`secp_inputs[i]` tells whether input i is one; all of them share one lock, hence one
+/// script group): the sighash_all message is blake2b(tx hash | len, witness of the group's first input with a zeroed 65-byte lock
+/// field | len, witness of every other input of the group | len, witness of every index beyond the inputs), the recoverable
+/// signature goes into WitnessArgs.lock of the first input of the group. Written from the system script's documentation.
+fn sign_tx(tx: &TransactionView, secp_inputs: &[bool], key: u8) -> TransactionView {
+    let n = tx.inputs().len();
+    let first = match secp_inputs.iter().position(|x| *x) {
+        Some(i) => i,
+        None => return tx.clone(),
+    };
+    let mut wits: Vec<Bytes> = tx.witnesses().into_iter().map(|w| w.raw_data()).collect();
+    while wits.len() < n {
+        wits.push(Bytes::new());
+    }
+    let zero = packed::WitnessArgs::new_builder().lock(Some(Bytes::from(vec![0u8; 65])).pack()).build();
+    wits[first] = zero.as_bytes();
+    let mut h = ckb_hash::new_blake2b();
+    h.update(tx.hash().as_slice());
+    let mut feed = |w: &Bytes| {
+        h.update(&(w.len() as u64).to_le_bytes());
+        h.update(w);
+    };
+    feed(&wits[first]);
+    for i in (first + 1)..n {
+        if secp_inputs.get(i).cloned().unwrap_or(false) {
+            feed(&wits[i]);
+        }
+    }
+    for w in wits.iter().skip(n) {
+        feed(w);
+    }
+    let mut msg = [0u8; 32];
+    h.finalize(&mut msg);
+    let sig = super::super::chain::secp_privkey(key).sign_recoverable(&H256::from(msg)).expect("sign").serialize();
+    wits[first] = zero.as_builder().lock(Some(Bytes::from(sig)).pack()).build().as_bytes();
+    tx.as_advanced_builder().set_witnesses(wits.into_iter().map(|w| w.pack()).collect()).build()
+}
+
+/// which inputs of `tx` spend secp-locked cells (looked up in what the generator handed out)
+fn secp_flags(tx: &TransactionView, secp_ops: &HashSet<OutPoint>) -> Vec<bool> {
+    tx.inputs().into_iter().map(|i| secp_ops.contains(&i.previous_output())).collect()
 }
 
 pub fn run(cfg: &RunCfg, out: &Out) {
@@ -51,22 +96,27 @@ pub fn run(cfg: &RunCfg, out: &Out) {
     }
 }
 
-fn base_tx(rng: &mut Rng, pool: &mut Vec<Spendable>, dep: &CellDep, lock: &Script, n_in: usize) -> Option<(TransactionView, u64, bool)> {
+fn base_tx(rng: &mut Rng, pool: &mut Vec<Spendable>, dep: &CellDep, secp_deps: &Option<(CellDep, CellDep)>, lock: &Script, n_in: usize) -> Option<(TransactionView, u64, bool, Vec<bool>)> {
     if pool.len() < n_in {
         return None;
     }
     let mut b = TransactionBuilder::default().cell_dep(dep.clone());
     let mut total = 0u64;
     let mut mature = true;
+    let mut flags = vec![];
     for _ in 0..n_in {
         let i = rng.pick_idx(pool.len());
         let s = pool.remove(i);
         total += s.capacity;
         mature &= s.mature;
+        flags.push(s.secp);
         b = b.input(CellInput::new(s.op, 0));
     }
+    if let (true, Some((code, data))) = (flags.iter().any(|x| *x), secp_deps) {
+        b = b.cell_dep(code.clone()).cell_dep(data.clone());
+    }
     let fee = 1000 + rng.below(1000);
-    let occupied = 41_0000_0000u64;
+    let occupied = 61_0000_0000u64;
     let mut n_out = rng.range(1, 2);
     if (total - fee) / n_out < occupied {
         n_out = 1;
@@ -76,9 +126,11 @@ fn base_tx(rng: &mut Rng, pool: &mut Vec<Spendable>, dep: &CellDep, lock: &Scrip
         return None;
     }
     for _ in 0..n_out {
-        b = b.output(CellOutput::new_builder().capacity(Capacity::shannons(each).pack()).lock(lock.clone()).build()).output_data(Bytes::new().pack());
+        // outputs go back to the always-success lock or (when deployed) to the secp lock
+        let l = if secp_deps.is_some() && rng.chance(1, 2) { super::super::chain::secp_lock(0) } else { lock.clone() };
+        b = b.output(CellOutput::new_builder().capacity(Capacity::shannons(each).pack()).lock(l).build()).output_data(Bytes::new().pack());
     }
-    Some((b.build(), each, mature))
+    Some((b.build(), each, mature, flags))
 }
 
 fn mutate_tx(rng: &mut Rng, tx: &TransactionView, chain: &Chain, tip: u64, max_bytes: u64) -> (TransactionView, &'static str) {
@@ -145,6 +197,20 @@ fn oversized(tx: &TransactionView, max_bytes: u64) -> TransactionView {
     tx.as_advanced_builder().witness(Bytes::from(vec![0x5au8; max_bytes as usize + 1]).pack()).build()
 }
 
+/// flip one bit of the signature in the witness of input `fi` (the transaction hash does not change)
+fn corrupt_signature(tx: &TransactionView, fi: usize) -> TransactionView {
+    let mut wits: Vec<Bytes> = tx.witnesses().into_iter().map(|w| w.raw_data()).collect();
+    if let Some(w) = wits.get(fi).cloned() {
+        let mut v = w.to_vec();
+        if v.len() > 30 {
+            let i = v.len() - 30;
+            v[i] ^= 0x04;
+        }
+        wits[fi] = Bytes::from(v);
+    }
+    tx.as_advanced_builder().set_witnesses(wits.into_iter().map(|w| w.pack()).collect()).build()
+}
+
 fn tx_status(w: &World, h: &Byte32) -> (String, Option<u64>) {
     let hh: H256 = h.unpack();
     let r = w.c().rpc_tx().get_transaction(hh).expect("get_transaction");
@@ -157,6 +223,9 @@ fn scenario(seed: u64, k: u64, out: &Out) {
     let (now, base_ts) = time_base();
     let mut params = gen_params(&mut rng, seed, base_ts);
     params.always_success = true;
+    // half of the scenarios also deploy the real secp256k1_blake160_sighash_all lock: verdicts then depend on signatures
+    params.secp = rng.chance(1, 2);
+    let secp = params.secp;
     params.pow = PowKind::Dummy;
     params.diff_mode = DiffMode::Fixed;
     params.tx_density = *rng.pick(&[0, 30, 60]);
@@ -169,9 +238,14 @@ fn scenario(seed: u64, k: u64, out: &Out) {
     let mut w = World::new(main, ccfg, seed, now);
     let net = HonestNet::new(0);
     w.add_peer(0, true);
-    set_scripts(&w, &vec![(lock.clone(), ST::Lock, 0)], None);
+    let secp_lock = super::super::chain::secp_lock(0);
+    let mut regs = vec![(lock.clone(), ST::Lock, 0)];
+    if secp {
+        regs.push((secp_lock.clone(), ST::Lock, 0));
+    }
+    set_scripts(&w, &regs, None);
     w.connect_all();
-    let desc = json!({"seed": seed, "scenario": k, "len": len});
+    let desc = json!({"seed": seed, "scenario": k, "len": len, "secp_lock_deployed": secp});
     let mut conv = false;
     for _ in 0..12 {
         if w.run_until(&mut NoHook, 10, |w| w.converged_on(0)).is_some() {
@@ -191,25 +265,40 @@ fn scenario(seed: u64, k: u64, out: &Out) {
     let maturity = w.c().consensus.cellbase_maturity();
     let max_bytes = w.c().consensus.max_block_bytes();
     let tip_epoch = chain.blocks[tip as usize].epoch();
-    let mut pool: Vec<Spendable> = idx
-        .live
-        .get(&(ST::Lock, refidx::script_key(&lock)))
-        .map(|s| {
-            s.iter()
-                .filter(|c| c.block > 0)
-                .map(|c| Spendable {
-                    op: OutPoint::new(Byte32::from_slice(&refidx::unhex_json(&json!(format!("0x{}", c.tx_hash)))).unwrap(), c.index),
+    let mut pool: Vec<Spendable> = vec![];
+    let mut secp_ops: HashSet<OutPoint> = HashSet::new();
+    for (l, is_secp) in [(&lock, false), (&secp_lock, true)] {
+        if is_secp && !secp {
+            continue;
+        }
+        if let Some(cells) = idx.live.get(&(ST::Lock, refidx::script_key(l))) {
+            for c in cells.iter().filter(|c| c.block > 0) {
+                let op = OutPoint::new(Byte32::from_slice(&refidx::unhex_json(&json!(format!("0x{}", c.tx_hash)))).unwrap(), c.index);
+                if is_secp {
+                    secp_ops.insert(op.clone());
+                }
+                pool.push(Spendable {
+                    op,
                     capacity: c.capacity,
                     mature: c.tx_index != 0 || {
                         let cb = chain.blocks[c.block as usize].epoch().to_rational() + maturity.to_rational();
                         cb <= tip_epoch.to_rational()
                     },
-                })
-                .collect()
-        })
-        .unwrap_or_default();
+                    secp: is_secp,
+                });
+            }
+        }
+    }
     let genesis_cb = chain.blocks[0].transactions()[0].hash();
-    let dep = CellDep::new_builder().out_point(OutPoint::new(genesis_cb, 3)).dep_type(DepType::Code.into()).build();
+    let dep = CellDep::new_builder().out_point(OutPoint::new(genesis_cb.clone(), 3)).dep_type(DepType::Code.into()).build();
+    let secp_deps: Option<(CellDep, CellDep)> = if secp {
+        Some((
+            CellDep::new_builder().out_point(OutPoint::new(genesis_cb.clone(), 4)).dep_type(DepType::Code.into()).build(),
+            CellDep::new_builder().out_point(OutPoint::new(genesis_cb.clone(), 5)).dep_type(DepType::Code.into()).build(),
+        ))
+    } else {
+        None
+    };
     let relay_peers: Vec<PeerId> = (0..rng.range(1, 3)).map(|_| PeerId::random()).collect();
     let mut sessions: Vec<Option<(PeerIndex, bool)>> = vec![None; relay_peers.len()];
     let mut next_session = 0usize;
@@ -234,16 +323,21 @@ fn scenario(seed: u64, k: u64, out: &Out) {
             // ... or a variant of it with the same hash that is not verifiable (witnesses are outside the hash): it must be
             // rejected like any other invalid transaction and must not replace the verified entry
             if let (Some(st), true) = (stored.clone(), rng.chance(1, 3)) {
-                let bad = oversized(&st.into_view(), max_bytes);
+                let stv = st.into_view();
+                let fl = secp_flags(&stv, &secp_ops);
+                let (bad, how) = match fl.iter().position(|x| *x) {
+                    Some(fi) if rng.chance(2, 3) => (corrupt_signature(&stv, fi), "corrupted-signature"),
+                    _ => (oversized(&stv, max_bytes), "oversized-witness"),
+                };
                 let jbad: ckb_jsonrpc_types::Transaction = bad.data().into();
                 let est = guarded(|| w.c().rpc_chain().estimate_cycles(jbad.clone()));
                 let sent = guarded(|| w.c().rpc_tx().send_transaction(jbad.clone()));
                 out.eval(2);
                 let (e_ok, s_ok) = (matches!(est, Ok(Ok(_))), matches!(sent, Ok(Ok(_))));
-                out.cell(&format!("resubmit-invalid-variant|send={}|estimate={}", s_ok, e_ok));
+                out.cell(&format!("resubmit-invalid-variant|{}|send={}|estimate={}", how, s_ok, e_ok));
                 if e_ok || s_ok {
                     violated = true;
-                    out.violation("C18.R1", &format!("C18|verdict-differs-from-reference|pending-hash-resubmitted-with-oversized-witness|expected=false|send={}|estimate={}", s_ok, e_ok), json!({"scenario": desc}), k);
+                    out.violation("C18.R1", &format!("C18|verdict-differs-from-reference|pending-hash-resubmitted-with-{}|expected=false|send={}|estimate={}", how, s_ok, e_ok), json!({"scenario": desc}), k);
                     break;
                 }
                 let after: Option<packed::Transaction> = w.c().pending.read().ok().and_then(|p| p.get(&h)).map(|(t, _, _)| t);
@@ -267,18 +361,31 @@ fn scenario(seed: u64, k: u64, out: &Out) {
         }
         // a valid base transaction (sometimes spending the output of a pending one)
         let n_in = rng.range(1, 2) as usize;
-        let (tx, each, mature) = match base_tx(&mut rng, &mut pool, &dep, &lock, n_in) {
+        let (tx, each, mature, flags) = match base_tx(&mut rng, &mut pool, &dep, &secp_deps, &lock, n_in) {
             Some(x) => x,
             None => continue,
         };
+        let has_secp = flags.iter().any(|x| *x);
         let mutate = rng.chance(2, 5);
-        let (tx, op, expect_ok) = if mutate {
+        // every transaction is signed *after* its mutation, so that a structural mutation is rejected for its own reason and
+        // not merely because the signature no longer covers it; the signature mutations are applied to the signed transaction
+        let (tx, op, expect_ok): (TransactionView, &str, bool) = if mutate && has_secp && rng.chance(1, 3) {
+            let signed = sign_tx(&tx, &flags, 0);
+            let fi = flags.iter().position(|x| *x).unwrap();
+            match rng.below(3) {
+                0 => (corrupt_signature(&signed, fi), "signature-bit-flipped", false),
+                1 => (sign_tx(&tx, &flags, 1), "signed-by-another-key", false),
+                _ => (tx.as_advanced_builder().set_witnesses(vec![]).build(), "signature-missing", false),
+            }
+        } else if mutate {
             let (t, op) = mutate_tx(&mut rng, &tx, &chain, tip, max_bytes);
+            let fl = secp_flags(&t, &secp_ops);
+            let t = if op == "oversized-witness" { oversized(&sign_tx(&tx, &flags, 0), max_bytes) } else { sign_tx(&t, &fl, 0) };
             (t, op, false)
         } else if !mature {
-            (tx, "cellbase-immature", false)
+            (sign_tx(&tx, &flags, 0), "cellbase-immature", false)
         } else {
-            (tx, "valid", true)
+            (sign_tx(&tx, &flags, 0), if has_secp { "valid-signed" } else { "valid" }, true)
         };
         let jtx: ckb_jsonrpc_types::Transaction = tx.data().into();
         let est = guarded(|| w.c().rpc_chain().estimate_cycles(jtx.clone()));
@@ -315,8 +422,13 @@ fn scenario(seed: u64, k: u64, out: &Out) {
                 evicted.push(gone);
             }
             // its outputs are spendable by later (pending-chained) transactions
-            for (i, _) in tx.outputs().into_iter().enumerate() {
-                pool.push(Spendable { op: OutPoint::new(h.clone(), i as u32), capacity: each, mature: true });
+            for (i, o) in tx.outputs().into_iter().enumerate() {
+                let is_secp = o.lock() == secp_lock;
+                let op = OutPoint::new(h.clone(), i as u32);
+                if is_secp {
+                    secp_ops.insert(op.clone());
+                }
+                pool.push(Spendable { op, capacity: each, mature: true, secp: is_secp });
             }
             let (st, cycles) = tx_status(&w, &h);
             out.eval(1);
